@@ -65,18 +65,22 @@ vars == <<files, pth, pthform, given, request, listing, pc, py, causes, canon, s
 Pkg == "pkg"
 Stubs == "pkg-stubs"                 \* PEP 561 stubs-only package of Pkg
 FindStubs == Family = "stubs"        \* load(..., find_stubs_package=True)
+Inspect == Family = "ext"            \* family "ext" is loaded with allow_inspection=True: a *real* compiled module
+                                     \* (token "__init__.so" in directory "_bisect": a copy of the stdlib extension) is
+                                     \* imported and inspected; fake compiled files still fail to import and are skipped
+DotDir == "d.x"                      \* a directory with a dot in its name (.ipynb_checkpoints, foo.egg-info, ...)
 NoFile == <<0, <<>>>>
 Accepted == {".py", ".pyc", ".pyo", ".pyd", ".pyi", ".so"}     \* ModuleFinder.extensions_set
 
 \* ---- token tables ---------------------------------------------------------------------------------
 PyToks  == {"pkg.py", "__init__.py", "__init__.py!", "m.py", "m.x.py", "x.py", "y.py", "z.py", "n.py", "a.py", "b.py", "c.py"}
 PyiToks == {"pkg.pyi", "__init__.pyi", "m.pyi", "x.pyi", "n.pyi"}
-SoToks  == {"pkg.so", "m.so"}
+SoToks  == {"pkg.so", "m.so", "__init__.so"}
 Ext(t) == IF t \in PyToks THEN ".py" ELSE IF t \in PyiToks THEN ".pyi" ELSE IF t \in SoToks THEN ".so"
           ELSE IF t = "m.pyc" THEN ".pyc" ELSE IF t = "data.txt" THEN ".txt" ELSE ".pth"
 \* iter_submodules: Path.stem, then split(".", 1)[0] for everything that is not a .py file
 GStem(t) == CASE t \in {"pkg.py", "pkg.pyi", "pkg.so"} -> "pkg"
-              [] t \in {"__init__.py", "__init__.py!", "__init__.pyi"} -> "__init__"
+              [] t \in {"__init__.py", "__init__.py!", "__init__.pyi", "__init__.so"} -> "__init__"
               [] t \in {"m.py", "m.pyi", "m.so", "m.pyc"} -> "m"
               [] t = "m.x.py" -> "m.x"
               [] t \in {"x.py", "x.pyi"} -> "x"
@@ -90,7 +94,7 @@ PyTok(n) == CASE n = "pkg" -> "pkg.py" [] n = "m" -> "m.py" [] n = "x" -> "x.py"
               [] n = "n" -> "n.py" [] n = "a" -> "a.py" [] n = "b" -> "b.py" [] n = "c" -> "c.py" [] OTHER -> "-"
 PyiTok(n) == CASE n = "m" -> "m.pyi" [] n = "x" -> "x.pyi" [] n = "n" -> "n.pyi" [] OTHER -> "-"
 PycTok(n) == CASE n = "m" -> "m.pyc" [] OTHER -> "-"      \* sourceless bytecode next to (not under) __pycache__ rules
-CandNames == {"m", "n", "s", "t", "x", "y", "z", "a", "b", "c"}
+CandNames == {"m", "n", "s", "t", "x", "y", "z", "a", "b", "c", "_bisect"}
 
 \* ---- the file system ------------------------------------------------------------------------------
 Prefix(s, n) == SubSeq(s, 1, n)
@@ -124,7 +128,9 @@ PyScan(dirs, i, name, nsacc) ==
   ELSE LET p == dirs[i][1]
            d == dirs[i][2]
            sub == Append(d, name)
-       IN IF IsDir(p, sub) /\ HasInitPy(p, sub)                                  \* regular package
+       IN IF IsDir(p, sub) /\ "__init__.so" \in FileNames(p, sub)                  \* regular package, compiled __init__ (first loader)
+          THEN [kind |-> "package", file |-> <<p, Append(sub, "__init__.so")>>, locs |-> << <<p, sub>> >>, ext |-> FALSE]
+          ELSE IF IsDir(p, sub) /\ HasInitPy(p, sub)                              \* regular package
           THEN [kind |-> "package", file |-> <<p, Append(sub, "__init__.py")>>, locs |-> << <<p, sub>> >>,
                 ext |-> "__init__.py!" \in FileNames(p, sub)]
           ELSE IF SoTok(name) \in FileNames(p, d)                                 \* extension module
@@ -164,8 +170,9 @@ PyWalk(locs, prefix, fuel) ==
 CandOf(rel) ==
   LET n == Len(rel)
       stem == GStem(rel[n])
-  IN {<<Pkg>> \o SubSeq(rel, 2, k) : k \in 1..(n - 1)} \cup
-     (IF stem \in CandNames THEN {<<Pkg>> \o SubSeq(rel, 2, n - 1) \o <<stem>>} ELSE {})
+  IN IF \E k \in 1..n : rel[k] = DotDir THEN {}              \* "pkg.d.x" is not a dotted module name one can ask for
+     ELSE {<<Pkg>> \o SubSeq(rel, 2, k) : k \in 1..(n - 1)} \cup
+          (IF stem \in CandNames THEN {<<Pkg>> \o SubSeq(rel, 2, n - 1) \o <<stem>>} ELSE {})
 CandPaths == {<<Pkg>>} \cup UNION {CandOf(f[2]) : f \in {g \in files : g[2][1] = Pkg /\ Len(g[2]) > 1}}
 
 PyReference ==
@@ -280,7 +287,7 @@ GetOrCreate(T, cur, parts, j, it) ==
 
 \* parent_module.set_member(name, submodule): implicit stub merge, else replacement
 SetMember(T, path, file) ==
-  LET new == [path |-> path, files |-> <<file>>, ns |-> FALSE, contrib |-> {file}]
+  LET new == [path |-> path, files |-> <<file>>, ns |-> FALSE, contrib |-> IF IsSo(file) THEN {} ELSE {file}]
   IN IF ~Has(T, path) THEN T \cup {new}
      ELSE LET old == NodeAt(T, path)
           IN IF ~IsNs(T, old) /\ ~old.ns /\ old.files # new.files
@@ -296,7 +303,8 @@ LoadOne(T, it) ==
   IF \E i \in 1..Len(it.parts) : IsDottedName(it.parts[i]) THEN T          \* "dots in filenames are not supported"
   ELSE LET res == GetOrCreate(T, <<Pkg>>, it.parts, 1, it)
        IN IF ~res.ok THEN T
-          ELSE IF Ext(LastOf(it.file[2])) \notin {".py", ".pyi"} THEN res.T  \* LoadingError: compiled module, no inspection
+          ELSE IF Ext(LastOf(it.file[2])) \notin {".py", ".pyi"} /\ ~(Inspect /\ LastOf(it.file[2]) = "__init__.so")
+          THEN res.T                       \* LoadingError: compiled module without inspection, or ImportError (fake file)
           ELSE SetMember(res.T, <<Pkg>> \o it.parts, it.file)
 
 RECURSIVE LoadFold(_, _, _)
@@ -401,7 +409,9 @@ NodeOK(n) ==
      ELSE IF IsPyi(n.files[1]) THEN StubOK(n)
      ELSE r.kind \in {"module", "package"} /\ (r.file = n.files[1] \/ SoSibling(r, n.files[1])) /\ ~(r.kind = "package" /\ r.ext)
 \* every loaded module is importable at that name from that file, or is stub-only
-V_LoadedImportable(out, T) == \A n \in T : NodeOK(n)
+\* ... and nothing is loaded out of a bytecode cache directory (PEP 3147: __pycache__ is a cache, not a package,
+\* although the import system would accept it as a namespace portion)
+V_LoadedImportable(out, T) == \A n \in T : NodeOK(n) /\ ~InSeq("__pycache__", n.path)
 \* every module the package walker finds is loaded at the same dotted path (compiled files: skipped without inspection)
 V_WalkerLoaded(out, T) ==
   \A w \in py.walk : LET r == ImpOf(w.path)
@@ -539,13 +549,13 @@ TopLayoutsOK == {l \in TopLayouts : (l.pth = 0 => (l.pthform = "abs" /\ ~\E f \i
 SubU == {<<"m.py">>, <<"m.pyi">>, <<"m.so">>, <<"m.x.py">>, <<"__pycache__", "m.pyc">>, <<"data.txt">>,
          <<"m", "__init__.py">>, <<"m", "__init__.pyi">>, <<"m", "x.py">>,
          <<"s", "__init__.py">>, <<"s", "__init__.pyi">>, <<"s", "x.py">>, <<"s", "x.pyi">>,
-         <<"s", "t", "__init__.py">>, <<"s", "t", "z.py">>}
+         <<"s", "t", "__init__.py">>, <<"s", "t", "z.py">>, <<DotDir, "data.txt">>}
 SubLayouts ==
   {[files |-> {<<1, <<Pkg, "__init__.py">>>>} \cup {<<1, <<Pkg>> \o r>> : r \in S}, pth |-> 0, pthform |-> "abs"]
    : S \in {X \in SUBSET {r \in SubU : LastOf(r) \notin Drop} : Cardinality(X) <= MaxFiles}}
 
 NsU == {<<"m.py">>, <<"m.pyi">>, <<"n.py">>, <<"s", "__init__.py">>, <<"s", "__init__.pyi">>, <<"s", "x.py">>, <<"s", "y.py">>,
-        <<"s", "t", "__init__.py">>, <<"s", "t", "z.py">>}
+        <<"s", "t", "__init__.py">>, <<"s", "t", "z.py">>, <<"__pycache__", "m.pyc">>, <<DotDir, "data.txt">>}
 NsChoices == {X \in SUBSET {r \in NsU : LastOf(r) \notin Drop} : Cardinality(X) <= MaxFiles}
 NsLayouts ==
   {[files |-> {<<1, <<Pkg>> \o r>> : r \in S1} \cup {<<2, <<Pkg>> \o r>> : r \in S2}, pth |-> 0, pthform |-> "abs"]
@@ -567,8 +577,15 @@ StubsLayouts ==
   {[files |-> {<<1, r>> : r \in StubFamPkg(k1) \cup s1} \cup {<<2, r>> : r \in StubFamPkg(k2) \cup s2}, pth |-> 0, pthform |-> "abs"]
    : k1 \in TopKinds, k2 \in TopKinds, s1 \in StubChoices, s2 \in StubChoices}
 
+\* family ext (allow_inspection=True): a regular package with a compiled sub-package (real extension module as
+\* __init__.<abi>.so), a module inside it, a source module and a fake compiled module
+ExtU == {<<"_bisect", "__init__.so">>, <<"_bisect", "x.py">>, <<"m.py">>, <<"m.so">>, <<"__pycache__", "m.pyc">>}
+ExtLayouts ==
+  {[files |-> {<<1, <<Pkg, "__init__.py">>>>} \cup {<<1, <<Pkg>> \o r>> : r \in S}, pth |-> 0, pthform |-> "abs"]
+   : S \in {X \in SUBSET ExtU : Cardinality(X) <= MaxFiles}}
+
 Layouts == IF Family = "top" THEN TopLayoutsOK ELSE IF Family = "sub" THEN SubLayouts
-           ELSE IF Family = "ns" THEN NsLayouts ELSE StubsLayouts
+           ELSE IF Family = "ns" THEN NsLayouts ELSE IF Family = "stubs" THEN StubsLayouts ELSE ExtLayouts
 
 Init ==
   /\ \E l \in Layouts : files = l.files /\ pth = l.pth /\ pthform = l.pthform
@@ -716,7 +733,7 @@ OnlyKnownViolations == Done => Violated(outcome, tree) \subseteq UNION {Explains
 NodeOut(T, n) == [path |-> n.path, files |-> n.files, ns |-> n.ns, contrib |-> n.contrib, cls |-> Cls(T, n)]
 EmitCase ==
   (Emit /\ Done) =>
-    PrintT(<<"CASE", ToJson([fam |-> Family, stubs |-> FindStubs, files |-> files, pth |-> pth, pthform |-> pthform, given |-> given, request |-> request,
+    PrintT(<<"CASE", ToJson([fam |-> Family, stubs |-> FindStubs, inspect |-> Inspect, files |-> files, pth |-> pth, pthform |-> pthform, given |-> given, request |-> request,
                              iscanon |-> (listing = CanonListing),
                              listing |-> {[p |-> k[1], d |-> k[2], files |-> listing[k].files, dirs |-> listing[k].dirs] : k \in DOMAIN listing},
                              impl |-> [outcome |-> outcome, tree |-> {NodeOut(tree, n) : n \in tree}, spaths |-> spaths],
